@@ -18,6 +18,9 @@ PHASES = {
     "C20": [
         {"pkg": "e4", "test": "TestC20Schedules", "phase": "C20/schedules"},
         {"pkg": "e4", "test": "TestC20Race", "phase": "C20/race-pass", "race": True},
+        # state shared between CONNECTIONS (decoders, buffers of the set-up workers): a packet arriving in two pieces
+        # while up to 45 other connections are set up and served must arrive intact (same paths as C18's split-packets)
+        {"pkg": "e2", "test": "TestC18SplitPackets", "phase": "C18/split-packets"},
     ],
     "C15": [
         {"pkg": "e3", "test": "TestC15Crash", "phase": "C15/crash-points"},
@@ -53,9 +56,12 @@ PHASES = {
     ],
     "C11": [
         {"pkg": "e2", "test": "TestC11Lifecycle", "phase": "C11/session-lifecycle"},
+        {"pkg": "e2", "test": "TestC11Pipelined", "phase": "C11/pipelined-connect"},
+        {"pkg": "e2", "test": "TestC11PeersFailTogether", "phase": "C11/peers-fail-together"},
     ],
     "C05": [
         {"pkg": "e2", "test": "TestC05StoreBeforeAck", "phase": "C05/store-before-ack"},
+        {"pkg": "e2", "test": "TestC05SlowRemote", "phase": "C05/slow-remote-log"},
     ],
     "C03": [
         {"pkg": "e2", "test": "TestC03Retransmission", "phase": "C03/retransmission"},
@@ -76,6 +82,7 @@ PHASES = {
         {"pkg": "e1", "test": "TestC07Retained", "phase": "C07/retained-histories"},
         {"pkg": "e1", "test": "TestC07TwoWriters", "phase": "C07/two-publishers"},
         {"pkg": "e2", "test": "TestC07Wire", "phase": "C07/wire"},
+        {"pkg": "e2", "test": "TestC07LateAnswers", "phase": "C07/late-answers"},
     ],
     "C08": [
         {"pkg": "e1", "test": "TestC08Convergence", "phase": "C08/convergence"},
